@@ -324,8 +324,14 @@ def edit_step(t, res, wr, src, step, all_args, guess_cap=20000):
         opt["regex"] = t.sample(REGEXES, t.between(1, 2))
         args += ["--regex", ",".join(opt["regex"])]
     target = src
+    recopy = False
     if opt["copy"]:
         target = "RC%d" % step
+        existing = sorted(d for d in os.listdir(os.path.join(wr, "Rules")) if d.startswith("RC") and d != src)
+        if existing and t.chance(1, 3):
+            # the same --copy name as an earlier run: the copy exists already
+            target = existing[t.draw(len(existing))]
+            recopy = True
         args += ["--copy", target]
     all_args.append(args)
     before = tree_snapshot(os.path.join(wr, "Rules"))
@@ -355,10 +361,25 @@ def edit_step(t, res, wr, src, step, all_args, guess_cap=20000):
         if changed:
             res.violate("C20", "file_outside_the_rules_directory_changed", {"files": changed[:4], "args": args, "cwd": "a directory holding %s/" % src})
             return None
+    if exc and recopy:
+        # refusing to copy over an existing ruleset is fine -- as long as nothing at all was touched
+        res.faults["copy_into_an_existing_ruleset_refused"] += 1
+        after = tree_snapshot(os.path.join(wr, "Rules"))
+        changed = sorted(k for k in set(before) | set(after) if before.get(k) != after.get(k))
+        if changed:
+            res.violate("C20", "other_file_changed", {"files": changed[:4], "args": args, "step": step, "after": "a refused --copy"})
+        return None
     if exc:
         res.violate("C20", "raised", {"exception": exc[-900:], "args": args, "step": step})
         return None
     after = tree_snapshot(os.path.join(wr, "Rules"))
+    if recopy:
+        # the tool went ahead although the copy existed: whatever it did, the source named by --rule stays as it was
+        res.faults["copy_into_an_existing_ruleset_accepted"] += 1
+        changed = sorted(k for k in before if k.startswith(src + os.sep) and before.get(k) != after.get(k))
+        if changed:
+            res.violate("C20", "copy_modified_the_source", {"files": changed[:4], "args": args, "step": step})
+        return None
     gpath = os.path.join(target, "Grammar", "grammar.txt")
     want = expected_grammar(orig, opt)
     got = open(os.path.join(wr, "Rules", gpath), "rb").read() if gpath in after else None
